@@ -60,6 +60,8 @@ V_QUICK = ["0", "-1", "256", "vimax", "vimin", "vni", "1.5", "vinf", "vnan", "vn
            'raw("a")', 'raw("12")', "vnb", "vb", "true", "vnt", "vc", "vnc", "vr", "vnr", "tup()", "vtab", "vtabs", "vtab2", "vtabr", "vntab", "vetab",
            "null", "vu", "fnull()", "int()", "num()", "str()", "raw()", "bool()", "tab()", "2", "vs", "uq", "us", "ut", "ur",
            "f1(ii)", "f1(1.5)", 'f1("a")', 'f1(raw("a"))', "fa", "phi", "pi"]
+REGEXES = ['"a.c"', '"a(c"', '"a)c"', '"[0-9"', '"a{2"', '"a{2,1}"', '"*a"', '"+"', '"?"', '"a**"', '"\\\\"', '"(?"', '"[[:nosuch:]]"', '"[z-a]"', '"a|"', '"()"', '"\\\\1"',
+           '"(a"', '"a]"', '"{"', '"a{99999999999}"', '"((((((((((a))))))))))"', '"[a-"', '"(?=a)"', '"\\\\x"', '".*"', '""']
 V_OPAQUE = ["f1(ii)", "f1(1.5)", 'f1("a")', 'f1(raw("a"))', "f1(vtab)", "f1(null)"]
 V_SMALL = ["0", "-1", "vimax", "vimin", "vni", "1.5", "vnan", "vnd", '""', '"a"', "vns", "vnul", 'raw("a")', "vnb", "vnt", "vr", "vtab", "vntab",
            "null", "vu", "2", "vs", "uq", "us"]
@@ -134,6 +136,12 @@ def vocab_exprs(tier):
         for a in V:
             for c in V:
                 yield ("%s %s %s" % (a, o, c), "op:" + o)
+    # patterns of `matches`: valid and malformed regular expressions, as constant, variable content and opaque value
+    for pat in REGEXES:
+        for subj in ('"abc"', "vs", "vns", 'f1("a")'):
+            yield ("%s matches %s" % (subj, pat), "op:matches-pattern")
+            yield ("%s matches f1(%s)" % (subj, pat), "op:matches-pattern")
+            yield ("%s matches (\"\" + %s)" % (subj, pat), "op:matches-pattern")
     for o in UNOPS:
         for a in V:
             yield ("%s %s" % (o, a), "unop:" + o)
